@@ -142,6 +142,14 @@ def compare(V, P, S, when, stats, deep=False):
             _viol(V, "reload.equal", "%s %s: mode() differs between reloaded and original" % (S.kind, when))
     except LibRaised as e:
         _viol(V, "reload.readout", "%s %s: %s" % (S.kind, when, e))
+    # the whole numeric state (samples, histories of adapted widths / step sizes / directions, counters, per-walker
+    # diagnostics), attribute by attribute: equal right after the reload and after every continued operation
+    dif = oracles.state_diff(oracles.numeric_state(S.chain), oracles.numeric_state(P.chain))
+    stats["states_compared"] += 1
+    if dif:
+        _viol(V, "reload.tuning", "%s %s: the state of the reloaded sampler differs from the never-saved one at %d attribute(s): %s"
+              % (S.kind, when, len(dif), "; ".join(dif[:3])))
+        return
     if deep and n >= 8 and hasattr(P.chain, "estimate_burn_in"):
         try:
             eP = P.chain.estimate_burn_in()
